@@ -1,5 +1,6 @@
 import Mp4ff.Model.Protect
 import Mp4ff.Lemmas.Protect
+import Mp4ff.Lemmas.ProtectTrex
 /-!
 # C06 / C07 — the box bookkeeping of Common Encryption
 
@@ -282,5 +283,38 @@ theorem init_then_fragments (sc : Scheme) (psshs subs : List Nat) (moov m' : Lis
     cases sc <;> simp [Scheme.name]) hfit
   obtain ⟨gl, h1, h2⟩ := this
   exact ⟨gl, hdi, h1, h2⟩
+
+/-! ## init segment: which trex box a track is decrypted with
+
+`DecryptFragment` reads the samples of a traf through the trex box `DecryptInit` put into the track's decrypt info.
+mvex may hold the trex boxes in any order (and between other boxes); the pairing must follow the track ID. -/
+
+/-- **the trex box of a track info carries that track's ID** — for any track IDs (repeated or not), any trex boxes
+    (repeated, missing, foreign IDs) in any order; and the loop keeps the track infos as they are -/
+theorem trex_pairing_by_id (ids : List Nat) (trexs : List (Nat × Nat)) :
+    (pairTrexs ids trexs).map (·.1) = ids ∧
+    ∀ id tag, (id, some tag) ∈ pairTrexs ids trexs → (id, tag) ∈ trexs :=
+  ⟨pairTrexs_ids ids trexs, fun id tag h => pairTrexs_byID ids trexs id tag h⟩
+
+/-- **distinct track IDs: the loop is the lookup by track ID** (the last trex box with the ID; none when mvex has no
+    such box) — position in mvex plays no role -/
+theorem trex_pairing_is_lookup (ids : List Nat) (trexs : List (Nat × Nat)) (h : ids.Nodup) :
+    pairTrexs ids trexs = ids.map fun id => (id, trexOf trexs id) :=
+  pairTrexs_spec ids trexs h
+
+/-- **every permutation of the trex boxes of mvex gives every track the same trex box**, namely its own (distinct track
+    IDs, one trex box per track ID) -/
+theorem trex_pairing_any_order (ids : List Nat) (trexs trexs' : List (Nat × Nat)) (h : ids.Nodup)
+    (hn : (trexs.map (·.1)).Nodup) (hp : trexs.Perm trexs') :
+    pairTrexs ids trexs' = pairTrexs ids trexs ∧
+    ∀ id tag, id ∈ ids → (id, tag) ∈ trexs → (id, some tag) ∈ pairTrexs ids trexs' := by
+  refine ⟨(pairTrexs_perm ids trexs trexs' h hn hp).symm, fun id tag hid ht => ?_⟩
+  rw [← pairTrexs_perm ids trexs trexs' h hn hp]
+  exact pairTrexs_complete ids trexs id tag h hn hid ht
+
+/-- traks video (ID 2), audio (ID 1); mvex holds the trex boxes audio, video: each track gets its own -/
+example : pairTrexs [2, 1] [(1, 10), (2, 20)] = [(2, some 20), (1, some 10)] := by decide
+example : decryptInitTrex [.other "mvhd" 108, .trak { trackID := 7, entries := [exEntry] },
+    .trak { trackID := 3, entries := [exEntry] }, .other "mvex" 72] [3, 7] = some [(7, some 2), (3, some 1)] := by decide
 
 end Mp4ff.C06b
